@@ -37,7 +37,63 @@ PROPS = {
             "memory safety of the MaybeUninit storage is not derived from the model beyond slot states and the drop log",
         ],
     ),
-
+    "C16": dict(
+        prop_file="Properties/C16.v",
+        check_module="C16Check",
+        theorems={t: [] for t in [
+            "C16_children_agree",
+            "C16_abstraction_injective",
+            "C16_step_refines",
+            "C16_run_refines",
+            "C16_swap_cards_refines",
+            "C16_get_card_get_card_mut",
+            "C16_walk_complete_unique",
+            "C16_visit_children_unfold",
+            "C16_replace_back",
+            "C16_remove_insert",
+            "C16_remove_insert_top_level",
+            "C16_remove_insert_fixed_refuted",
+            "C16_swap_involutive",
+            "C16_swap_ancestor_fails_unchanged",
+            "C16_swap_fail_unchanged",
+            "C16_failed_edit_unchanged",
+            "C16_replace_local",
+            "C16_swap_local",
+            "C16_insert_local",
+            "C16_remove_local",
+            "C16_swap_same_legacy_refuted",
+            "C16_call_insert_legacy_refuted",
+            "C16_get_depth_legacy_refuted",
+        ]},
+        n_quick=150, n_thorough=1500,
+        gates=["kinds.all43", "op.get", "op.get_mut", "op.insert", "op.remove", "op.replace", "op.swap", "op.walk",
+               "op.kids", "op.replace_child", "err.CardNotFound", "err.FunctionNotFound", "err.InvalidIndex",
+               "err.ChildErr", "swap.InvalidSwap", "swap.FetchError", "edge.swap_same", "edge.call_insert_oor",
+               "edge.get_nested_miss", "random"],
+        rule="bounded-exhaustive: each of the 43 card kinds (list kinds with 0-3 children) x every child index "
+             "0..arity+1 x {kids, get, get_mut, replace+replace back, insert, remove, swap twice with a card of the "
+             "same and of another function, swap with the own ancestor in both orders, replace_child, walk, swap "
+             "with itself}, once as a top-level card and once nested in a host card; malformed indices (empty, "
+             "function out of range, card out of range); plus n random modules (depth <= 4, thorough <= 6) with "
+             "random histories of 8-16 calls on valid, perturbed and invalid indices. After every call the result "
+             "(incl. error variant and depth) and the whole module are compared with the kind-by-kind model and "
+             "with the rose-tree specification. Calls of the three repaired classes (swap(i,i), insert past the end of a call, get_card "
+             "below a miss) are issued inside the histories and also as cases of their own. non-trivial = history uses >= 3 operation kinds or contains a failing call; distinct = "
+             "distinct case term",
+        trusted_base=COMMON_TB + [
+            "modelled, not verified: card.rs num_children/iter_children/get_child/get_child_mut/remove_child/"
+            "insert_child/replace_child and module.rs CardIndex::cmp, get_card/get_card_mut/remove_card/"
+            "replace_card/insert_card/swap_cards/walk_cards(_mut)/visit_children; the abstraction to_rose "
+            "(which children a card has, in which order) is part of the specification",
+            "the harness printer from cao_lang::compiler::{Card, Module} to CardAst terms (harness/src/c16.rs)",
+            "wasm/src/lib.rs forwards to the same five functions; read, not modelled, not built"],
+        assumptions=[
+            "CardId (random, skipped by serde) is not modelled or compared",
+            "indices are u32 in the implementation and nat in the model; the harness only issues small indices",
+            "after a caught panic the module is not compared further (no panic occurs; C16_step_refines shows "
+            "the unwraps and slice operations of the modelled paths cannot fail)",
+        ],
+    ),
     "C12": dict(
         prop_file="Properties/C12.v",
         check_module="C12Check",
